@@ -85,9 +85,16 @@ func (h OperatorHooksWrapper) AfterOperatorKeyRemovalInitiated(
 		if found {
 			h.keeper.SetOptOutInformation(ctx, operator)
 		} else {
-			h.keeper.operatorKeeper.DeleteOperatorAddressForChainIDAndConsAddr(
-				ctx, chainID, consAddr,
-			)
+			// the key is not in the validator set, so there is nothing to wait for: complete the
+			// removal now. deleting only the reverse lookup would leave the operator's key and its
+			// removal marker behind forever, and let another operator register the same key.
+			if err := h.keeper.operatorKeeper.CompleteOperatorKeyRemovalForChainID(
+				ctx, operator, chainID,
+			); err != nil {
+				h.keeper.Logger(ctx).Error(
+					"failed to complete the key removal", "operator", operator, "error", err,
+				)
+			}
 		}
 	}
 }
